@@ -659,7 +659,43 @@ func Select(a, i *Term) *Term {
 	return r
 }
 
+// liftIte moves a case distinction out of an address: sub(ite(c,x,y), f) -> ite(c, sub(x,f), sub(y,f))
+var liftMemo = map[int]*Term{}
+
+func liftIte(i *Term) *Term {
+	switch i.Op {
+	case "sub", "elem", "mkey":
+	default:
+		return i
+	}
+	if r, ok := liftMemo[i.id]; ok {
+		return r
+	}
+	b := liftIte(i.Args[0])
+	r := i
+	if b.Op == "ite" {
+		mkc := func(x *Term) *Term {
+			switch i.Op {
+			case "sub":
+				return liftIte(Sub(x, i.Int))
+			case "elem":
+				return liftIte(Elem(x, i.Args[1]))
+			}
+			return liftIte(MKey(x, i.Args[1]))
+		}
+		r = Ite(b.Args[0], mkc(b.Args[1]), mkc(b.Args[2]))
+	}
+	liftMemo[i.id] = r
+	return r
+}
+
 func selectRaw(a, i *Term) *Term {
+	if a.Op != "var" && i.S == SRef {
+		// case distinctions in the address are resolved per case, so that each case can be decided syntactically
+		if j := liftIte(i); j.Op == "ite" {
+			return Ite(j.Args[0], Select(a, j.Args[1]), Select(a, j.Args[2]))
+		}
+	}
 	for {
 		switch a.Op {
 		case "store":
